@@ -149,13 +149,17 @@ func fail(t *testing.T, c any, msg string) {
 func TestC17(t *testing.T) {
 	col := stats.New("C17")
 	col.Sub = "tables"
+	if cfg := os.Getenv("VERIF_BUILDCFG"); cfg != "" {
+		// the same comparison in a binary built another way (-race): the tables must not depend on how they are built
+		col.Sub = "tables-" + cfg + "-build"
+	}
 	defer func() {
 		if err := col.Write(env); err != nil {
 			t.Errorf("HARNESS: %v", err)
 		}
 	}()
 	col.Exhaustive = true
-	col.Rule = "complete comparison: for zexdoc.cim and zexall.cim (SHA-256 pinned to the canonical images) the records are located through JP start / LD HL,tests / the zero-terminated pointer table; " +
+	col.Rule = "complete comparison (run twice: in a plain build and in a -race build of internal/zex): for zexdoc.cim and zexall.cim (SHA-256 pinned to the canonical images) the records are located through JP start / LD HL,tests / the zero-terminated pointer table; " +
 		"every record (mask, 20-byte base, increment and shift vectors, 4-byte CRC, message up to '$') is compared byte for byte, in table order, with internal/zex DocCases / AllCases; counts must match; " +
 		"evaluations = bytes compared; non-trivial = every record; distinct by construction"
 	for _, v := range []struct {
@@ -216,6 +220,24 @@ func TestReplay(t *testing.T) {
 		}
 		var d struct {
 			Case c17Case `json:"case"`
+		}
+		var cnt struct {
+			Case struct {
+				Variant string `json:"variant"`
+				Records int    `json:"image_records"`
+			} `json:"case"`
+		}
+		if json.Unmarshal(b, &cnt) == nil && cnt.Case.Records > 0 {
+			// a count mismatch: re-decided by counting
+			n := len(zex.DocCases)
+			if cnt.Case.Variant == "all" {
+				n = len(zex.AllCases)
+			}
+			if n != cnt.Case.Records {
+				fmt.Printf("REPLAY-FAIL property=C17 file=%s %s: image has %d cases, Go table has %d\n", f, cnt.Case.Variant, cnt.Case.Records, n)
+				t.Fail()
+			}
+			continue
 		}
 		if json.Unmarshal(b, &d) != nil || d.Case.Variant == "" {
 			continue
